@@ -58,6 +58,22 @@ def run(res):
             cs.append({"args": args, "key_args": base + ["lag"], "sets": {"enc_mode": 8, "recon_enabled": 1, "logical_processors": 2}, "n": n, "policy": p})
         groups.append((obsfam.key_of(cs[0]), cs))
 
+    # the last hand-overs of a stream: with 16k+1 pictures the stream ends with a show-existing packet that follows the last
+    # temporal unit; the packetization stage is held back right after every hand-over (semaphore post), so whatever it still
+    # does to a packet it has already handed over happens long after the application looked at it.  An application that is
+    # already waiting (policy each / every:k) and one that fetches everything after EOS (none) must see the same packets.
+    from checks import c04
+    lo, hi = c04.kernel_ranges()["packetization_kernel"]
+    for n in ((17, 33) if res.tier == "quick" else (17, 33, 49, 34, 18)):
+        base = ["-n", str(n), "-w", "64", "-h", "64"]
+        s = {"enc_mode": 8, "recon_enabled": 0, "logical_processors": 4}
+        cs = [{"args": base + ["--policy", "none"], "key_args": base + ["tail"], "sets": dict(s), "n": n, "policy": "none"}]
+        for p in ("each", "every:2", "none"):
+            for us in ((30000,) if res.tier == "quick" else (30000, 150000)):
+                cs.append({"args": base + ["--policy", p, "--slow-kernel", "%x:%x:1000:%d:1" % (lo, hi, us)], "key_args": base + ["tail"],
+                           "sets": dict(s), "n": n, "policy": p})
+        groups.append((obsfam.key_of(cs[0]), cs))
+
     def known(r, kind):
         return {"kind": kind, "policy": r["case"]["policy"].split(":")[0], "recon": int(r["case"]["sets"].get("recon_enabled", 0))}
     obsfam.run_groups(res, groups, timeout=120, what="C27 independence of call pacing", known_key_fn=known)
